@@ -467,55 +467,79 @@ Theorem C01_envelope_wire_format :
 Proof. exact env_wire_format_closed. Qed.
 Print Assumptions C01_envelope_wire_format.
 
-(* KMS envelope over an AES-CTR-HMAC data key (model/EnvelopeDekEtm.v: the nested key proto
-   newDEK serialises, parsed back and validated by registry.Primitive; AES and the HMACs of the five
-   hash types are quantified functions, their output lengths the only hypotheses): for the fresh key of
-   ANY valid template (IV 12..16, tag 10..digest size) the envelope built around it decrypts to the
-   plaintext, and it is be32(|encDEK|) || encDEK || payload with a payload of exactly
-   IV size + |p| + tag size bytes - as short as 22 bytes: no minimum payload length other than that
-   may be imposed by Decrypt *)
+(* KMS envelope over an AES-CTR-HMAC data key (model/EnvelopeDekEtm.v: the nested key proto newDEK
+   serialises = ProtoWire.encode; registry.Primitive unmarshals it as protobuf does - ProtoWire.decode, any
+   encoding of the message - and validates it; nothing of the template but its type URL is consulted; AES
+   and the HMACs of the five hash types are quantified functions, their output lengths the only
+   hypotheses): for the fresh key of ANY valid template (IV 12..16, tag 10..digest size) the envelope built
+   around it decrypts to the plaintext, and it is be32(|encDEK|) || encDEK || payload with
+   1 <= |encDEK| <= 4096 and a payload of exactly IV size + |p| + tag size bytes - as short as 22 bytes:
+   no minimum payload length other than that may be imposed by Decrypt.  (lenN ... < 2^64 holds of every
+   byte string that exists.) *)
 Theorem C01_envelope_ctrhmac_dek_round_trip :
   forall (aes : bytes -> bytes -> bytes) (hmacs : N -> bytes -> bytes -> bytes),
     (forall k b, length (aes k b) = 16%nat) ->
     (forall h hl, hash_len h = Some hl -> forall k m, length (hmacs h k m) = hl) ->
     forall kek_enc kek_dec kivlen, kek_rt kek_enc kek_dec kivlen ->
     forall h hl k kekiv dekiv p ad c,
-      hash_len h = Some hl -> etm_valid hl k = true -> (length (ek_hmac k) <= 100)%nat ->
+      hash_len h = Some hl -> etm_valid hl k = true -> lenN (etm_dek_proto h k) < ProtoWire.two64 ->
       length kekiv = kivlen -> length dekiv = ek_iv k ->
-      env_enc kek_enc (etm_dek_enc aes hmacs (ek_iv k)) (etm_dek_proto h k) kekiv dekiv p ad = Ok c ->
-      env_dec kek_dec (etm_dek_dec aes hmacs (ek_iv k)) c ad = Ok p /\
+      env_enc kek_enc (etm_dek_enc aes hmacs) (etm_dek_proto h k) kekiv dekiv p ad = Ok c ->
+      env_dec kek_dec (etm_dek_dec aes hmacs) c ad = Ok p /\
       exists encDEK payload, kek_enc kekiv (etm_dek_proto h k) [] = Ok encDEK /\
+        1 <= lenN encDEK <= 4096 /\
         c = be_bytes 4 (lenN encDEK) ++ encDEK ++ payload /\
         length payload = (ek_iv k + length p + ek_tag k)%nat.
 Proof.
-  intros aes hmacs HA HH ke kd kl HK h hl k kekiv dekiv p ad c Hh Hv Hm H1 H2 He.
-  exact (env_round_trip_etm_fresh aes hmacs HA HH ke kd kl h hl k kekiv dekiv p ad c Hh Hv Hm HK H1 H2 He).
+  intros aes hmacs HA HH ke kd kl HK h hl k kekiv dekiv p ad c Hh Hv Hl H1 H2 He.
+  exact (env_round_trip_etm_fresh aes hmacs HA HH ke kd kl h hl k kekiv dekiv p ad c Hh Hv Hl HK H1 H2 He).
 Qed.
 Print Assumptions C01_envelope_ctrhmac_dek_round_trip.
 
-(* ... and for whatever serialised data key the key-encryption AEAD hands back *)
+(* ... and for ANY byte string the key-encryption AEAD hands back as the serialised data key, in any
+   protobuf encoding (explicit zero versions, unknown fields, other field order, long varints), made from
+   whatever template: if it unmarshals to a valid key (h, k) and Encrypt drew an IV of THAT key's size *)
 Theorem C01_envelope_ctrhmac_dek_round_trip_any_dek :
   forall (aes : bytes -> bytes -> bytes) (hmacs : N -> bytes -> bytes -> bytes),
     (forall k b, length (aes k b) = 16%nat) ->
     (forall h hl, hash_len h = Some hl -> forall k m, length (hmacs h k m) = hl) ->
     forall kek_enc kek_dec kivlen, kek_rt kek_enc kek_dec kivlen ->
-    forall ivsz dek kekiv dekiv p ad c,
-      length kekiv = kivlen -> length dekiv = ivsz ->
-      env_enc kek_enc (etm_dek_enc aes hmacs ivsz) dek kekiv dekiv p ad = Ok c ->
-      env_dec kek_dec (etm_dek_dec aes hmacs ivsz) c ad = Ok p.
+    forall dek h k kekiv dekiv p ad c,
+      etm_dek_parse dek = Some (h, k) ->
+      length kekiv = kivlen -> length dekiv = ek_iv k ->
+      env_enc kek_enc (etm_dek_enc aes hmacs) dek kekiv dekiv p ad = Ok c ->
+      env_dec kek_dec (etm_dek_dec aes hmacs) c ad = Ok p.
 Proof.
-  intros aes hmacs HA HH ke kd kl HK ivsz dek kekiv dekiv p ad c H1 H2 He.
-  exact (env_round_trip_etm aes hmacs HA HH ke kd kl ivsz dek kekiv dekiv p ad c HK H1 H2 He).
+  intros aes hmacs HA HH ke kd kl HK dek h k kekiv dekiv p ad c Ep H1 H2 He.
+  exact (env_round_trip_etm aes hmacs HA HH ke kd kl dek h k kekiv dekiv p ad c HK Ep H1 H2 He).
 Qed.
 Print Assumptions C01_envelope_ctrhmac_dek_round_trip_any_dek.
 
 (* non-vacuity: AES-128-CTR-HMAC-SHA256 with IV 12 and tag 10 is a valid template whose fresh key
-   serialises to a data key that parses back *)
+   serialises to the 50 bytes proto.Marshal produces and parses back; other encodings of the same key
+   parse to the same key, a key of another IV size is a key all the same, and version 1, a 24-byte AES
+   key or a missing HMAC key message are refused *)
 Theorem C01_envelope_ctrhmac_dek_small_template_is_valid :
   hash_len 3 = Some 32%nat /\ etm_valid 32 etm_small_key = true /\
-  etm_dek_parse 12 (etm_dek_proto 3 etm_small_key) = Some (3, etm_small_key).
+  etm_dek_parse (etm_dek_proto 3 etm_small_key) = Some (3, etm_small_key) /\
+  etm_dek_proto 3 etm_small_key =
+    [18; 22; 18; 2; 8; 12; 26; 16] ++ repeat 1 16 ++ [26; 24; 18; 4; 8; 3; 16; 10; 26; 16] ++ repeat 2 16.
 Proof. exact etm_small_valid. Qed.
 Print Assumptions C01_envelope_ctrhmac_dek_small_template_is_valid.
+
+Theorem C01_envelope_ctrhmac_dek_encodings :
+  let ctr := [18; 22; 18; 2; 8; 12; 26; 16] ++ repeat 1 16 in
+  let hm := [26; 24; 18; 4; 8; 3; 16; 10; 26; 16] ++ repeat 2 16 in
+  etm_dek_parse ([8; 0] ++ ctr ++ hm) = Some (3, etm_small_key) /\
+  etm_dek_parse (ctr ++ hm ++ [40; 1]) = Some (3, etm_small_key) /\
+  etm_dek_parse (hm ++ ctr) = Some (3, etm_small_key) /\
+  etm_dek_parse (etm_dek_proto 3 (mkEtm (repeat 1 16) (repeat 2 16) 16 10)) = Some (3, mkEtm (repeat 1 16) (repeat 2 16) 16 10) /\
+  etm_dek_parse ([8; 1] ++ ctr ++ hm) = None /\
+  etm_dek_parse (etm_dek_proto 3 (mkEtm (repeat 1 24) (repeat 2 16) 12 10)) = None /\
+  etm_dek_parse ctr = None.
+Proof. exact etm_noncanonical_deks_parse. Qed.
+Print Assumptions C01_envelope_ctrhmac_dek_encodings.
+
 
 (* the law asked of the key-encryption AEAD is met by Tink's own AEADs (here AES-GCM with
    any prefix), so the envelope over a local KEK is closed entirely *)
@@ -526,6 +550,38 @@ Theorem C01_envelope_kek_law_inhabited :
       kek_only (aesgcm_enc seal prefix key) (aesgcm_dec open_ prefix key) 12.
 Proof. intros seal open_ HL prefix key. exact (aesgcm_is_kek seal open_ prefix key HL). Qed.
 Print Assumptions C01_envelope_kek_law_inhabited.
+
+(* the round-trip theorem applied end to end to a concrete instance (toy block function, constant HMACs of
+   the right lengths, the toy AEAD under the AES-GCM framing as key-encryption AEAD, whose law is
+   C01_envelope_kek_law_inhabited): the 112-byte envelope of [1;2;3] decrypts, and its parts have the
+   stated sizes - obtained FROM the theorem, not by evaluating Decrypt *)
+Definition toy_hmacs (h : N) (k m : bytes) : bytes := zeros (match hash_len h with Some n => n | None => 0%nat end).
+Example C01_envelope_ctrhmac_dek_end_to_end :
+  let kenc := aesgcm_enc toy_seal (output_prefix VTink 7) [1] in
+  let kdec := aesgcm_dec (toy_open gcm_seal_max) (output_prefix VTink 7) [1] in
+  let z := fun _ _ : bytes => zeros 16 in
+  exists c, env_enc kenc (etm_dek_enc z toy_hmacs) (etm_dek_proto 3 etm_small_key) (zeros 12) (zeros 12) [1; 2; 3] [9] = Ok c /\
+    length c = 112%nat /\
+    env_dec kdec (etm_dek_dec z toy_hmacs) c [9] = Ok [1; 2; 3].
+Proof.
+  cbv zeta.
+  destruct (env_enc (aesgcm_enc toy_seal (output_prefix VTink 7) [1]) (etm_dek_enc (fun _ _ : bytes => zeros 16) toy_hmacs)
+              (etm_dek_proto 3 etm_small_key) (zeros 12) (zeros 12) [1; 2; 3] [9]) as [c| |] eqn:E;
+    [|vm_compute in E; discriminate|vm_compute in E; discriminate].
+  exists c. split; [reflexivity|]. split.
+  - assert (E' := E). vm_compute in E'. inversion E'. reflexivity.
+  - assert (HL : std_aead toy_seal (toy_open gcm_seal_max) gcm_seal_max) by (exact (toy_laws gcm_seal_max)).
+    destruct (C01_envelope_kek_law_inhabited toy_seal (toy_open gcm_seal_max) HL (output_prefix VTink 7) [1]) as [HK _].
+    refine (proj1 (C01_envelope_ctrhmac_dek_round_trip (fun _ _ => zeros 16) toy_hmacs _ _ _ _ 12%nat HK
+                     3 32%nat etm_small_key (zeros 12) (zeros 12) [1; 2; 3] [9] c _ _ _ _ _ E)).
+    + intros. apply zeros_length.
+    + intros h hl Hh k m. unfold toy_hmacs. rewrite Hh. apply zeros_length.
+    + reflexivity.
+    + reflexivity.
+    + vm_compute. reflexivity.
+    + reflexivity.
+    + reflexivity.
+Qed.
 
 (* Non-vacuity of the stretch theorems: a whole envelope (toy AEAD as KEK and as AES-GCM
    data key) encrypts, has the stated size and decrypts; the RFC 8452 equality on a
